@@ -14,12 +14,18 @@ def f(a):
     return a * 7 + 1
 
 
-def real_history(cap, calls, keymod):
+def g(a):
+    """a wrapped function with falsy and None results (a cache must not mistake a cached None / 0 / '' for a miss)"""
+    return [None, 0, "", False, 5, None][a % 6]
+
+
+def real_history(cap, calls, keymod, fn_=None):
     count = [0]
+    fn_ = fn_ or f
 
     def wrapped(a):
         count[0] += 1
-        return f(a)
+        return fn_(a)
 
     key = (lambda a: a) if keymod == 0 else (lambda a: a % keymod)
     fn = lru_cache(key, cap)(wrapped)
@@ -35,7 +41,7 @@ def real_history(cap, calls, keymod):
     return {"steps": steps, "calls": count[0]}
 
 
-def oracle(cap, calls, keymod, real):
+def oracle(cap, calls, keymod, real, f=f):
     """direct statement of C20 against a reference LRU (list of keys by recency, most recent last)"""
     if cap < 1:
         return None
@@ -45,7 +51,7 @@ def oracle(cap, calls, keymod, real):
     for a, st in zip(calls, real["steps"]):
         k = key(a)
         miss = k not in cached
-        if keymod == 0 and st["ret"] != f(a):
+        if keymod == 0 and (st["ret"] != f(a) or type(st["ret"]) is not type(f(a))):
             return "call %s returned %s, wrapped function gives %s" % (a, st["ret"], f(a))
         if st["called"] != miss:
             return "wrapped function %s on a %s" % ("called" if st["called"] else "not called", "miss" if miss else "hit")
@@ -97,6 +103,18 @@ def run(tier, seed):
         if len(set(calls)) > cap >= 1:
             nontriv.add(canon([cap, calls, keymod]))
             evictions += 1
+    # the same discipline for a wrapped function whose results include None, 0, '' and False (oracle only: the model's
+    # wrapped function is `7a+1`)
+    nfalsy = 0
+    for cap, calls, keymod in hist[::7] + hist[-nrand:]:
+        if keymod != 0 or cap < 1:
+            continue
+        nfalsy += 1
+        real = real_history(cap, calls, 0, g)
+        msg = oracle(cap, calls, 0, real, g)
+        if msg and len(fails) < 20:
+            fails.append({"property": "C20", "signature": "lru-discipline-falsy-results", "what": msg + " (wrapped function returns None/0/''/False for some keys)",
+                          "cap": cap, "calls": calls[:40], "keymod": 0, "observed": real["steps"][-3:]})
     resps = Driver().batch(reqs)
     for (cap, calls, keymod), real, resp in zip(hist, reals, resps):
         if canon(resp) != canon(real):
@@ -109,7 +127,8 @@ def run(tier, seed):
             "samples": [{"cap": hist[100][0], "calls": hist[100][1]}, {"cap": hist[-1][0], "calls": hist[-1][1][:20]}],
             "exhaustive": True,
             "disagreements": disagreements, "oracle_failures": fails,
-            "distribution": {"histories": len(hist), "with_eviction": evictions, "max_len_exhaustive": maxlen}}
+            "distribution": {"histories": len(hist), "with_eviction": evictions, "max_len_exhaustive": maxlen,
+                             "histories_with_falsy_results": nfalsy}}
 
 
 if __name__ == "__main__":
